@@ -458,7 +458,13 @@ func (in *inst) post(c *astutil.Cursor) bool {
 			}
 		case in.pkgIdent(n.X, "time"):
 			switch n.Sel.Name {
-			case "After", "NewTimer", "NewTicker", "Tick", "AfterFunc", "Sleep":
+			case "Sleep":
+				// a pause inside a retry / polling loop: like Gosched a scheduling point at
+				// which the thread stays enabled (no clock is modelled: nothing in the
+				// explored executions may depend on how long the pause is)
+				in.used = true
+				c.Replace(vs("Sleep"))
+			case "After", "NewTimer", "NewTicker", "Tick", "AfterFunc":
 				fatalf("unsupported construct %s: time.%s (timers are not modelled)", in.pos(n), n.Sel.Name)
 			}
 		}
